@@ -1,0 +1,33 @@
+//go:build verif
+// +build verif
+
+package blocker
+
+import (
+	"time"
+
+	"github.com/gauss-project/aurorafs/pkg/p2p"
+)
+
+// VerifSetResolution replaces the sequencer resolution and returns a function
+// restoring it. It must only be called while no Blocker is alive (the background
+// goroutines of a Blocker read the resolution without synchronisation).
+func VerifSetResolution(d time.Duration) (restore func()) {
+	prev := sequencerResolution
+	sequencerResolution = d
+	return func() { sequencerResolution = prev }
+}
+
+// VerifTick advances the sequence exactly as one firing of the sequencer ticker
+// does: only while the network is available.
+func (b *Blocker) VerifTick() {
+	if b.blocklister.NetworkStatus() == p2p.NetworkStatusAvailable {
+		b.sequence.Inc()
+	}
+}
+
+// VerifSweep runs one blocking sweep, as one firing of the wake-up ticker does.
+func (b *Blocker) VerifSweep() { b.block() }
+
+// VerifSeq returns the current value of the monotonic sequence.
+func (b *Blocker) VerifSeq() uint64 { return b.sequence.Load() }
